@@ -5,7 +5,7 @@ import itertools
 
 from .common import Suite, errname, merge
 
-GEN_UNITS = ["Totp", "PyUnicode"]
+GEN_UNITS = ["Totp", "PyUnicode", "TotpAll"]
 LEAN_TARGETS = ["PasslibVerif.Props.C14"]
 ASSUMPTIONS = [
     "the application feeds back the counter of each accepted match as last_counter (as the property states)",
